@@ -3,13 +3,258 @@
 package checks
 
 import (
+	"bytes"
+	"encoding/hex"
 	"math/rand"
+	"os"
+	"path/filepath"
+	"strings"
 
 	"verif/model"
+	"verif/refcrypt"
 )
+
+const (
+	maskBegin = 0xF70
+	maskEnd   = 0x1070
+)
+
+var (
+	wmEnc = []byte("Dncrypted 3K BLD")
+	wmDec = []byte("Encrypted 3K BLD")
+)
+
+// alt is one admissible presentation of an opened regular file.
+type alt struct {
+	fail  bool
+	bytes []byte
+	dc    [][2]int64
+	kind  string
+}
+
+// tableClass classifies the region table at the start of stored: "valid", "invalid" (one of the
+// unambiguous invalid classes: must be rejected) or "unjudged".
+func tableClass(stored []byte) (string, []refcrypt.Region) {
+	regs, err := refcrypt.ParseTable(stored)
+	if err != nil {
+		return "invalid", nil // table longer than the file
+	}
+	if len(regs) < 2 {
+		return "unjudged", regs
+	}
+	if len(regs) > 255 {
+		return "unjudged", regs
+	}
+	if regs[0].Start != 0 {
+		return "invalid", regs
+	}
+	class := "valid"
+	for i, r := range regs {
+		if r.End < r.Start {
+			return "invalid", regs
+		}
+		if r.End == r.Start {
+			class = "unjudged" // single-sector plain region: ambiguous
+		}
+		if i > 0 {
+			if r.Start < regs[i-1].Start {
+				return "invalid", regs
+			}
+			if r.Start <= regs[i-1].End {
+				class = "unjudged"
+			}
+		}
+	}
+	return class, regs
+}
+
+func readKeyFile(p string) (key []byte, exists bool, wellFormed bool) {
+	b, err := os.ReadFile(p)
+	if err != nil {
+		return nil, false, false
+	}
+	if len(b) < 32 {
+		return nil, true, false
+	}
+	k, err := hex.DecodeString(string(b[:32]))
+	if err != nil {
+		return nil, true, false
+	}
+	return k, true, true
+}
+
+// decide implements the decision table of C11 for a regular file below root.
+func decide(root, osPath string) []alt {
+	stored, err := os.ReadFile(osPath)
+	if err != nil {
+		return nil
+	}
+	identity := alt{bytes: stored, kind: "identity"}
+	rel := strings.TrimPrefix(osPath, root)
+	elems := strings.Split(strings.Trim(rel, "/"), "/")
+	ext := filepath.Ext(osPath)
+	ps3idx := -1
+	nPS3 := 0
+	for i, c := range elems[:len(elems)-1] {
+		if strings.EqualFold(c, "ps3iso") {
+			if ps3idx < 0 {
+				ps3idx = i
+			}
+			nPS3++
+		}
+	}
+	// (b) watermark situation
+	wm := "none"
+	if len(stored) >= maskEnd {
+		switch {
+		case bytes.Equal(stored[maskBegin:maskBegin+16], wmEnc):
+			wm = "enc"
+		case bytes.Equal(stored[maskBegin:maskBegin+16], wmDec):
+			wm = "dec"
+		}
+	} else if len(stored) >= maskBegin+32 {
+		if bytes.Equal(stored[maskBegin:maskBegin+16], wmEnc) || bytes.Equal(stored[maskBegin:maskBegin+16], wmDec) {
+			wm = "short" // file ends inside the watermark area: statement silent
+		}
+	}
+	masked := func(b []byte) []byte {
+		o := bytes.Clone(b)
+		for i := maskBegin; i < maskEnd && i < len(o); i++ {
+			o[i] = 0
+		}
+		return o
+	}
+	caseB := func() []alt {
+		switch wm {
+		case "enc":
+			cls, regs := tableClass(stored)
+			switch cls {
+			case "invalid":
+				return []alt{{fail: true, kind: "3k3y-enc-invalid-table"}}
+			case "unjudged":
+				return nil
+			}
+			key := stored[maskBegin+16 : maskBegin+32]
+			return []alt{{bytes: masked(refcrypt.Plaintext(stored, regs, key, false)), kind: "3k3y-enc"}}
+		case "dec":
+			return []alt{{bytes: masked(stored), kind: "3k3y-dec"}}
+		case "short":
+			return nil
+		}
+		return []alt{identity}
+	}
+	// malformed key file: the statement is silent; admissible {open error, identity, (b)}
+	malformed := func() []alt {
+		b := caseB()
+		if b == nil {
+			return nil
+		}
+		return append([]alt{{fail: true, kind: "malformed-key-refused"}, identity}, b...)
+	}
+	if strings.EqualFold(ext, ".iso") && ps3idx >= 0 {
+		if nPS3 > 1 {
+			return nil // which PS3ISO directory is "the" one is not stated
+		}
+		base := strings.TrimSuffix(osPath, ext)
+		adj := base + ".dkey"
+		redElems := append([]string{}, elems...)
+		redElems[ps3idx] = "REDKEY"
+		redElems[len(redElems)-1] = strings.TrimSuffix(redElems[len(redElems)-1], ext) + ".dkey"
+		red := filepath.Join(append([]string{root}, redElems...)...)
+		var key []byte
+		src := ""
+		if k, ex, ok := readKeyFile(adj); ex {
+			if !ok {
+				return malformed()
+			}
+			key, src = k, "adjacent"
+		} else if k, ex, ok := readKeyFile(red); ex {
+			if !ok {
+				return malformed()
+			}
+			key, src = k, "redkey"
+		}
+		if key != nil {
+			cls, regs := tableClass(stored)
+			switch cls {
+			case "invalid":
+				return []alt{{fail: true, kind: "redump-invalid-table"}}
+			case "unjudged":
+				return nil
+			}
+			a := alt{bytes: refcrypt.Plaintext(stored, regs, key, false), kind: "redump-" + src}
+			if wm != "none" {
+				a.dc = [][2]int64{{maskBegin, maskEnd}} // key applies and watermark present: area unspecified
+			}
+			return []alt{a}
+		}
+	}
+	return caseB()
+}
+
+// FullViews is the ViewFunc implementing the decision table; ambiguous situations are not judged.
+func FullViews(w *model.World, osPath string, virtual int, rel string) (model.View, bool, bool) {
+	if virtual != model.VirtNone {
+		return isoViews(w, virtual, rel)
+	}
+	alts := decide(w.Root, osPath)
+	if len(alts) != 1 {
+		return nil, false, false
+	}
+	a := alts[0]
+	if a.fail {
+		return nil, true, true
+	}
+	if a.kind == "identity" {
+		v, err := model.NewPlainView(osPath)
+		if err != nil {
+			return nil, false, false
+		}
+		return v, false, true
+	}
+	return &model.BytesView{B: a.bytes, K: a.kind, DC: a.dc}, false, true
+}
 
 // c02ViewObjects creates the non-plain objects (generated images, encrypted images) below root and
 // returns them with the ViewFunc that knows their expected bytes.
 func c02ViewObjects(e *Env, root string, r *rand.Rand) ([]c02Obj, model.ViewFunc) {
-	return nil, model.PlainViews
+	var objs []c02Obj
+	must(os.MkdirAll(filepath.Join(root, "PS3ISO"), 0o755))
+	must(os.MkdirAll(filepath.Join(root, "REDKEY"), 0o755))
+	must(os.MkdirAll(filepath.Join(root, "other"), 0o755))
+	for i := 0; i < e.Pick(4, 30); i++ {
+		sectors := 20 + r.Intn(200)
+		c := c10Case{Key: randBytes(r, 16), Sectors: sectors, Seed: r.Int63()}
+		c.Regions, c.Shape = genRegions(r, sectors)
+		stored, _ := c.build()
+		name := "enc" + string(rune('a'+i%26)) + hex.EncodeToString(randBytes(r, 2))
+		var rel string
+		switch i % 3 {
+		case 0: // adjacent key
+			rel = "/PS3ISO/" + name + ".iso"
+			must(os.WriteFile(filepath.Join(root, "PS3ISO", name+".dkey"), []byte(hex.EncodeToString(c.Key)), 0o644))
+		case 1: // REDKEY
+			rel = "/PS3ISO/" + name + ".ISO"
+			must(os.WriteFile(filepath.Join(root, "REDKEY", name+".dkey"), []byte(strings.ToUpper(hex.EncodeToString(c.Key))+"\n"), 0o644))
+		case 2: // 3k3y encrypted watermark, anywhere
+			plain := bytes.Clone(refcrypt.Plaintext(stored, c.Regions, c.Key, false))
+			regs := []refcrypt.Region{{Start: 0, End: 1}, {Start: 5, End: uint32(sectors + 3)}}
+			copy(plain, make([]byte, 64))
+			copy(plain, refcrypt.Table(regs))
+			copy(plain[maskBegin:], wmEnc)
+			copy(plain[maskBegin+16:], c.Key)
+			stored = refcrypt.BuildImage(plain, regs, c.Key)
+			rel = "/other/" + name + ".iso"
+		}
+		must(os.WriteFile(filepath.Join(root, rel), stored, 0o644))
+		objs = append(objs, c02Obj{rel, int64(len(stored)), "decrypted-view"})
+	}
+	objs = append(objs, isoObjects(e, root, r)...)
+	return objs, FullViews
+}
+
+func randBytes(r *rand.Rand, n int) []byte {
+	b := make([]byte, n)
+	r.Read(b)
+	return b
 }
